@@ -194,6 +194,7 @@ impl IsZero for [u8] {
             t |= *b as i8;
         }
 
-        Choice::from((((t | -t) >> 7) + 1) as u8)
+        // wrapping: -t overflows for t == i8::MIN (a byte OR of 0x80)
+        Choice::from((((t | t.wrapping_neg()) >> 7) + 1) as u8)
     }
 }
